@@ -35,6 +35,7 @@ RULE = (
     "+-1 us x tolerances 0..1e6 us x object sets with ids appearing / disappearing x ego- or map-frame objects with arbitrary "
     "ego poses and quaternion sign flips; manager lookups on generated datasets. non-trivial = interpolated query with both "
     "neighbours in tolerance, or a lookup at a tolerance edge; distinct = (function, query position class, neighbours-in-tolerance class, frame id)"
+    " Later additions: manager lookups judged against the caller's tolerance (10 ms .. 600 ms); objects stamped a fixed latency off their frame's stamp; tilted ego poses; objects turning on the spot."
 )
 ASSUMPTIONS = ["frames sorted by strictly increasing timestamp", "objects carry velocities (the interpolation code interpolates them)"]
 DECIDING = ["get_now_frame.judged", "get_interpolated_now_frame.judged", "C17.interpolated_frames", "C17.objects_interpolated", "C17.objects_single_neighbour", "C17.before_first_queries", "C17.only_one_neighbour", "C17.none_returned", "C17.manager_lookups"]
